@@ -197,6 +197,9 @@ func (c14) Generate(r *core.Rng, run int, tier string) *core.History {
 	for i := 0; i < n; i++ {
 		k := core.Pick(r, c14Kinds)
 		name := fmt.Sprintf("v_%c%d", 'a'+rune(r.Intn(26)), i)
+		if r.Bool(.2) {
+			name = fmt.Sprintf("V_%c%d", 'A'+rune(r.Intn(26)), i) // an all-caps name: a constant of the session, saved like any other
+		}
 		h.Events = append(h.Events, core.Event{Ev: "bind", Name: name, Text: name + " = " + k.src(r), Key: k.kind})
 	}
 	if r.Bool(.6) {
